@@ -66,18 +66,19 @@ type cliFrame struct {
 }
 
 type cliWorld struct {
-	c      *lib.Case
-	svc    pubsub.Service
-	mem    *membership
-	fs     *fakeStream
-	accts  []*account
-	spaces []string
-	subs   []*localSub
-	frames []*cliFrame
-	raw    map[int]*pubsubproto.Publish // delivered valid frames, for replay
-	ops    []string
-	crypt  bool
-	stop   bool
+	c       *lib.Case
+	svc     pubsub.Service
+	mem     *membership
+	fs      *fakeStream
+	accts   []*account
+	spaces  []string
+	subs    []*localSub
+	frames  []*cliFrame
+	raw     map[int]*pubsubproto.Publish // delivered valid frames, for replay
+	ops     []string
+	crypt   bool
+	stop    bool
+	flooded bool
 
 	mu      sync.Mutex
 	invs    []invocation
@@ -413,6 +414,21 @@ func runClient(c *lib.Case) {
 				if len(cands) == 0 {
 					continue
 				}
+				if !w.flooded && c.Index%6 == 0 && r.Intn(3) == 0 {
+					// a flood of forged frames with fresh message ids, more than the duplicate filter remembers:
+					// frames that are not authentic must not consume the filter's memory, so the replay that
+					// follows is still recognised
+					w.flooded = true
+					n := 4096 + 32
+					w.logOp("flood of %d forged frames (fresh message ids, signatures that do not verify)", n)
+					for j := 0; j < n && !w.stop; j++ {
+						f := w.build(1_000_000+j, sp, topic, signer, now())
+						f.Signature[j%len(f.Signature)] ^= 0x04
+						w.send(f)
+					}
+					w.c.Count("client.forged_floods", 1)
+					w.c.Count("client.forged_flood_frames", int64(n))
+				}
 				sortInts(cands)
 				orig := cands[r.Intn(len(cands))]
 				p = clonePub(w.raw[orig])
@@ -448,6 +464,36 @@ func runClient(c *lib.Case) {
 			fr.desc = fmt.Sprintf("frame#%d space=%s topic=%q signer=%s class=%s expect-subs=%v", idx, p.SpaceId, p.Topic, fr.signer.name, fr.class, keysOfInt(fr.expect))
 			w.frames = append(w.frames, fr)
 			w.logOp("%s", fr.desc)
+			if fr.class == "valid" && r.Intn(4) == 0 {
+				// a forged twin arrives first: same message id, same claimed identity, signature that does not
+				// verify. It must be dropped without any effect on the genuine message that follows
+				// (added after seeded change C17-4 - duplicate filter consulted before the signature check)
+				twin := clonePub(p)
+				tw := "bit-flip"
+				switch r.Intn(3) {
+				case 0:
+					twin.Signature[len(twin.Signature)/3] ^= 0x10
+				case 1:
+					other := w.accts[(1+indexOf(w.accts, signer))%3]
+					sig, _ := other.priv.Sign(signData(twin))
+					twin.Signature = sig
+					tw = "signed-by-other-key"
+				default:
+					tampered := []byte(fmt.Sprintf("m%dx", idx))
+					if w.crypt {
+						tampered = xorBytes(tampered)
+					}
+					twin.Payload = tampered
+					tw = "payload-changed"
+				}
+				twin.Relayed = r.Intn(2) == 0
+				w.logOp("forged twin (%s) of frame#%d sent ahead of it (same message id)", tw, idx)
+				w.send(twin)
+				w.c.Count("client.forged_twins_sent_ahead_of_a_valid_frame", 1)
+				if len(fr.expect) > 0 {
+					w.c.Count("client.forged_twins_ahead_of_a_valid_frame_with_live_subscription", 1)
+				}
+			}
 			w.send(p)
 			w.c.Count("client.frame."+strings.SplitN(fr.class, ":", 2)[0], 1)
 		}
